@@ -1,1 +1,654 @@
-(* Proofs/Tridiag.v -- stub, to be filled in *)
+(* Proofs/Tridiag.v -- lemmas about Model/Tridiag.v: every view of a tridiagonal matrix equals its
+   dense twin [dense t : nat -> nat -> A] (the textbook matrix with the same three diagonals). *)
+From Coq Require Import List Arith Lia Bool Ring_theory Ring.
+From OV Require Import Base.Panic Base.Arith Model.Vector Model.Matrix Model.Tridiag.
+Import ListNotations.
+
+(* ---------- small list facts ---------- *)
+Lemma nth_repeat_any {X} (x : X) n i : nth i (repeat x n) x = x.
+Proof. revert i; induction n as [|n IH]; intros [|i]; cbn; auto. Qed.
+
+Lemma nth_repeat_lt {X} (x d : X) n i : i < n -> nth i (repeat x n) d = x.
+Proof. revert i; induction n as [|n IH]; intros [|i] H; cbn; auto; try lia. apply IH; lia. Qed.
+
+Lemma idx_inj c a b a' b' : b < c -> b' < c -> a * c + b = a' * c + b' -> a = a' /\ b = b'.
+Proof.
+  intros Hb Hb' E.
+  assert (a = a') as ->.
+  { apply (f_equal (fun x => x / c)) in E.
+    rewrite !Nat.div_add_l, !Nat.div_small, !Nat.add_0_r in E by lia. exact E. }
+  split; [reflexivity | lia].
+Qed.
+
+Section TriProofs.
+Context {A : Arith}.
+Notation T := (T A).
+Notation tridiag := (tridiag A).
+Notation matrix := (matrix A).
+
+(* well-formed: the invariant every constructor establishes *)
+Definition wfT (t : tridiag) : Prop :=
+  length (tmain t) = tn t /\ length (tsub t) = tn t - 1 /\ length (tsup t) = tn t - 1.
+
+(* in the band: on one of the three diagonals *)
+Definition in_band (i j : nat) : Prop := i = j \/ i = j + 1 \/ i + 1 = j.
+
+(* dense-matrix side: well-formed flat buffer and its (i,j) entry *)
+Definition wfM (m : matrix) : Prop := length (buf m) = rows m * cols m.
+Definition entry (m : matrix) (i j : nat) : T := nth (i * cols m + j) (buf m) zero.
+
+(* ---------- constructors establish wfT ---------- *)
+Lemma with_vecs_spec (sub main sup : list T) :
+  1 <= length main -> length sub = length main - 1 -> length sup = length main - 1 ->
+  exists t, with_vecs sub main sup = Ok t /\ wfT t /\ tn t = length main /\
+            tsub t = sub /\ tmain t = main /\ tsup t = sup.
+Proof.
+  intros Hn Hs Hp. unfold with_vecs, usub.
+  destruct (Nat.leb_spec 1 (length main)) as [_|]; [|lia]. cbn [bind].
+  rewrite Hs, Hp, Nat.eqb_refl. cbn [negb bind].
+  eexists; split; [reflexivity|]. unfold wfT; cbn. auto.
+Qed.
+
+Lemma with_vecs_rejects (sub main sup : list T) :
+  1 <= length main -> (length sub <> length main - 1 \/ length sup <> length main - 1) ->
+  with_vecs sub main sup = Panic Guard.
+Proof.
+  intros Hn H. unfold with_vecs, usub.
+  destruct (Nat.leb_spec 1 (length main)) as [_|]; [|lia]. cbn [bind].
+  destruct (Nat.eqb_spec (length sub) (length main - 1)) as [E1|]; cbn [negb]; [|reflexivity].
+  cbn [bind]. destruct (Nat.eqb_spec (length sup) (length main - 1)) as [E2|]; cbn [negb]; [|reflexivity].
+  lia.
+Qed.
+
+Lemma with_elements_spec (a b c : T) n : 1 <= n ->
+  exists t, with_elements a b c n = Ok t /\ wfT t /\ tn t = n /\
+    forall i j, i < n -> j < n -> dense t i j =
+      if i =? j then b else if i =? j + 1 then a else if i + 1 =? j then c else zero.
+Proof.
+  intros Hn. unfold with_elements, usub.
+  destruct (Nat.leb_spec 1 n) as [_|]; [|lia]. cbn [bind].
+  eexists; split; [reflexivity|]. unfold wfT; cbn [tmain tsub tsup tn].
+  rewrite !repeat_length. repeat split; auto.
+  intros i j Hi Hj. unfold dense; cbn [tmain tsub tsup].
+  destruct (Nat.eqb_spec i j); [apply nth_repeat_lt|]; try lia.
+  destruct (Nat.eqb_spec i (j + 1)); [apply nth_repeat_lt|]; try lia.
+  destruct (Nat.eqb_spec (i + 1) j); [apply nth_repeat_lt|]; try lia.
+  reflexivity.
+Qed.
+
+(* ---------- index: the dense twin on the three diagonals, a refusal everywhere else ---------- *)
+Lemma tindex_in_band t i j : wfT t -> i < tn t -> j < tn t -> in_band i j ->
+  tindex t i j = Ok (dense t i j).
+Proof.
+  intros (Hm & Hs & Hp) Hi Hj Hb. unfold tindex, dense.
+  destruct (Nat.leb_spec (tn t) i); [lia|]. destruct (Nat.leb_spec (tn t) j); [lia|]. cbn [orb].
+  destruct (Nat.eqb_spec i j); [apply rd_ok; lia|].
+  destruct (Nat.eqb_spec i (j + 1)); [apply rd_ok; lia|].
+  destruct (Nat.eqb_spec (i + 1) j); [apply rd_ok; lia|].
+  unfold in_band in Hb; lia.
+Qed.
+
+Lemma tindex_refuses (t : tridiag) i j : (tn t <= i \/ tn t <= j \/ ~ in_band i j) -> tindex t i j = Panic Guard.
+Proof.
+  intros H. unfold tindex.
+  destruct (Nat.leb_spec (tn t) i); [reflexivity|]. destruct (Nat.leb_spec (tn t) j); [reflexivity|]. cbn [orb].
+  unfold in_band in H.
+  destruct (Nat.eqb_spec i j); [lia|]. destruct (Nat.eqb_spec i (j + 1)); [lia|].
+  destruct (Nat.eqb_spec (i + 1) j); [lia|]. reflexivity.
+Qed.
+
+Lemma dense_off_band (t : tridiag) i j : ~ in_band i j -> dense t i j = zero.
+Proof.
+  intros H. unfold dense, in_band in *.
+  destruct (Nat.eqb_spec i j); [lia|]. destruct (Nat.eqb_spec i (j + 1)); [lia|].
+  destruct (Nat.eqb_spec (i + 1) j); [lia|]. reflexivity.
+Qed.
+
+(* ---------- writes through IndexMut ---------- *)
+Lemma tset_in_band t i j x : wfT t -> i < tn t -> j < tn t -> in_band i j ->
+  exists t', tset t i j x = Ok t' /\ wfT t' /\ tn t' = tn t /\
+    forall a b, a < tn t -> b < tn t ->
+      dense t' a b = if (a =? i) && (b =? j) then x else dense t a b.
+Proof.
+  intros (Hm & Hs & Hp) Hi Hj Hb. unfold tset.
+  destruct (Nat.leb_spec (tn t) i); [lia|]. destruct (Nat.leb_spec (tn t) j); [lia|]. cbn [orb].
+  destruct (Nat.eqb_spec i j) as [E|NE].
+  { subst j. rewrite upd_ok by lia. cbn [bind]. eexists; split; [reflexivity|].
+    unfold wfT; cbn [tmain tsub tsup tn]. rewrite upd_list_length. repeat split; auto.
+    intros a b Ha Hb'. unfold dense; cbn [tmain tsub tsup].
+    destruct (Nat.eqb_spec a b) as [Eab|]; [subst a|].
+    - rewrite nth_upd_list by lia. destruct (Nat.eqb_spec b i); cbn [andb]; reflexivity.
+    - destruct (Nat.eqb_spec a i); destruct (Nat.eqb_spec b i); cbn [andb]; try reflexivity; lia. }
+  destruct (Nat.eqb_spec i (j + 1)) as [E|NE2].
+  { subst i. rewrite upd_ok by lia. cbn [bind]. eexists; split; [reflexivity|].
+    unfold wfT; cbn [tmain tsub tsup tn]. rewrite upd_list_length. repeat split; auto.
+    intros a b Ha Hb'. unfold dense; cbn [tmain tsub tsup].
+    destruct (Nat.eqb_spec a b) as [Eab|]; [subst a|].
+    { destruct (Nat.eqb_spec b (j + 1)); destruct (Nat.eqb_spec b j); cbn [andb]; try reflexivity; lia. }
+    destruct (Nat.eqb_spec a (b + 1)) as [->|].
+    { rewrite nth_upd_list by lia.
+      destruct (Nat.eqb_spec b j); destruct (Nat.eqb_spec (b + 1) (j + 1)); cbn [andb]; try reflexivity; lia.
+    }
+    destruct (Nat.eqb_spec a (j + 1)); destruct (Nat.eqb_spec b j); cbn [andb]; try reflexivity; lia. }
+  destruct (Nat.eqb_spec (i + 1) j) as [E|NE3]; [|unfold in_band in Hb; lia].
+  subst j. rewrite upd_ok by lia. cbn [bind]. eexists; split; [reflexivity|].
+  unfold wfT; cbn [tmain tsub tsup tn]. rewrite upd_list_length. repeat split; auto.
+  intros a b Ha Hb'. unfold dense; cbn [tmain tsub tsup].
+  destruct (Nat.eqb_spec a b) as [Eab|]; [subst a|].
+  { destruct (Nat.eqb_spec b i); destruct (Nat.eqb_spec b (i + 1)); cbn [andb]; try reflexivity; lia. }
+  destruct (Nat.eqb_spec a (b + 1)) as [->|].
+  { destruct (Nat.eqb_spec (b + 1) i); destruct (Nat.eqb_spec b (i + 1)); cbn [andb]; try reflexivity; lia. }
+  destruct (Nat.eqb_spec (a + 1) b) as [<-|].
+  { rewrite nth_upd_list by lia.
+    destruct (Nat.eqb_spec a i); destruct (Nat.eqb_spec (a + 1) (i + 1)); cbn [andb]; try reflexivity; lia. }
+  destruct (Nat.eqb_spec a i); destruct (Nat.eqb_spec b (i + 1)); cbn [andb]; try reflexivity; lia.
+Qed.
+
+Lemma tset_refuses (t : tridiag) i j x : (tn t <= i \/ tn t <= j \/ ~ in_band i j) -> tset t i j x = Panic Guard.
+Proof.
+  intros H. unfold tset.
+  destruct (Nat.leb_spec (tn t) i); [reflexivity|]. destruct (Nat.leb_spec (tn t) j); [reflexivity|]. cbn [orb].
+  unfold in_band in H.
+  destruct (Nat.eqb_spec i j); [lia|]. destruct (Nat.eqb_spec i (j + 1)); [lia|].
+  destruct (Nat.eqb_spec (i + 1) j); [lia|]. reflexivity.
+Qed.
+
+(* ---------- transpose = exchange of sub- and super-diagonal ---------- *)
+Lemma ttranspose_spec t : wfT t ->
+  wfT (ttranspose t) /\ tn (ttranspose t) = tn t /\ forall i j, dense (ttranspose t) i j = dense t j i.
+Proof.
+  intros (Hm & Hs & Hp). unfold ttranspose, ttranspose_in_place, wfT; cbn [tmain tsub tsup tn].
+  repeat split; auto.
+  intros i j. unfold dense; cbn [tmain tsub tsup].
+  destruct (Nat.eqb_spec i j) as [->|]; [now rewrite Nat.eqb_refl|].
+  destruct (Nat.eqb_spec j i); [lia|].
+  destruct (Nat.eqb_spec i (j + 1)) as [->|].
+  { destruct (Nat.eqb_spec j (j + 1 + 1)); [lia|]. now rewrite Nat.eqb_refl. }
+  destruct (Nat.eqb_spec (j + 1) i); [lia|].
+  destruct (Nat.eqb_spec (i + 1) j) as [<-|].
+  { now rewrite Nat.eqb_refl. }
+  destruct (Nat.eqb_spec j (i + 1)); [lia|]. reflexivity.
+Qed.
+
+(* ---------- convert: the flat row-major dense matrix holds the dense twin ---------- *)
+Lemma mset_spec (d : matrix) a b x : wfM d -> a < rows d -> b < cols d ->
+  exists d', mset d a b x = Ok d' /\ wfM d' /\ rows d' = rows d /\ cols d' = cols d /\
+    forall a' b', a' < rows d -> b' < cols d ->
+      entry d' a' b' = if (a' =? a) && (b' =? b) then x else entry d a' b'.
+Proof.
+  intros Hw Ha Hb. unfold mset, wfM in *.
+  assert (Hlt : a * cols d + b < length (buf d)) by nia.
+  rewrite upd_ok by exact Hlt. cbn [bind]. eexists; split; [reflexivity|].
+  cbn [buf rows cols]. rewrite upd_list_length. repeat split; auto.
+  intros a' b' Ha' Hb'. unfold entry; cbn [buf rows cols].
+  rewrite nth_upd_list by exact Hlt.
+  destruct (Nat.eqb_spec (a' * cols d + b') (a * cols d + b)) as [E|NE].
+  - apply idx_inj in E as [-> ->]; auto. now rewrite !Nat.eqb_refl.
+  - destruct (Nat.eqb_spec a' a) as [->|]; destruct (Nat.eqb_spec b' b) as [->|]; cbn [andb]; auto; lia.
+Qed.
+
+Lemma tconvert_spec t : wfT t -> 1 <= tn t ->
+  exists m, tconvert t = Ok m /\ wfM m /\ rows m = tn t /\ cols m = tn t /\
+    forall i j, i < tn t -> j < tn t -> entry m i j = dense t i j.
+Proof.
+  intros (Hm & Hs & Hp) Hn. unfold tconvert.
+  set (n := tn t) in *.
+  assert (W0 : wfM (mat_new n n (@zero A)) /\ rows (mat_new n n (@zero A)) = n /\ cols (mat_new n n (@zero A)) = n
+               /\ forall i j, entry (mat_new n n (@zero A)) i j = zero).
+  { unfold wfM, mat_new, entry; cbn. rewrite repeat_length. repeat split; auto.
+    intros; apply nth_repeat_any. }
+  destruct W0 as (W0 & R0 & C0 & E0).
+  destruct (Nat.eqb_spec n 0); [lia|].
+  destruct (Nat.eqb_spec n 1) as [N1|N1].
+  - (* n = 1 *)
+    rewrite (rd_ok _ _ zero) by lia. cbn [bind].
+    destruct (mset_spec (mat_new n n zero) 0 0 (nth 0 (tmain t) zero) W0) as (d & E & W & R & C & V); try lia.
+    exists d; split; [exact E|]. rewrite R, C, R0, C0. repeat split; auto.
+    intros i j Hi Hj. rewrite V by lia. assert (i = 0) as -> by lia. assert (j = 0) as -> by lia. reflexivity.
+  - (* n >= 2 *)
+    rewrite (rd_ok _ _ zero) by lia. cbn [bind].
+    destruct (mset_spec (mat_new n n zero) 0 0 (nth 0 (tmain t) zero) W0) as (d1 & E1 & W1 & R1 & C1 & V1); try lia.
+    rewrite E1; cbn [bind]. rewrite (rd_ok _ _ zero) by lia. cbn [bind].
+    destruct (mset_spec d1 0 1 (nth 0 (tsup t) zero) W1) as (d2 & E2 & W2 & R2 & C2 & V2); try lia.
+    rewrite E2; cbn [bind].
+    (* the loop over the interior rows *)
+    pose (I := fun (i : nat) (d : matrix) =>
+      wfM d /\ rows d = n /\ cols d = n /\
+      forall a b, a < n -> b < n -> entry d a b = if a <? i then dense t a b else zero).
+    assert (I2 : I 1 d2).
+    { unfold I. rewrite R2, C2, R1, C1, R0, C0. repeat split; auto.
+      intros a b Ha Hb. rewrite V2, V1 by lia. rewrite E0.
+      destruct (Nat.ltb_spec a 1) as [La|La].
+      - assert (a = 0) as -> by lia. cbn [Nat.eqb andb]. unfold dense.
+        destruct b as [|[|b]]; cbn [Nat.eqb andb]; reflexivity.
+      - destruct (Nat.eqb_spec a 0); [lia|]. reflexivity. }
+    destruct (for_inv I 1 (n - 1) (fun i d =>
+                let* x := rd (tsub t) (i - 1) in
+                let* d := mset d i (i - 1) x in
+                let* x := rd (tmain t) i in
+                let* d := mset d i i x in
+                let* x := rd (tsup t) i in
+                mset d i (i + 1) x) d2) as (d3 & E3 & (W3 & R3 & C3 & V3)); [lia|exact I2| |].
+    { intros i d Hi (W & R & C & V).
+      rewrite (rd_ok _ _ zero) by lia. cbn [bind].
+      destruct (mset_spec d i (i - 1) (nth (i - 1) (tsub t) zero) W) as (da & Ea & Wa & Ra & Ca & Va); try lia.
+      rewrite Ea; cbn [bind]. rewrite (rd_ok _ _ zero) by lia. cbn [bind].
+      destruct (mset_spec da i i (nth i (tmain t) zero) Wa) as (db & Eb & Wb & Rb & Cb & Vb); try lia.
+      rewrite Eb; cbn [bind]. rewrite (rd_ok _ _ zero) by lia. cbn [bind].
+      destruct (mset_spec db i (i + 1) (nth i (tsup t) zero) Wb) as (dc & Ec & Wc & Rc & Cc & Vc); try lia.
+      exists dc; split; [exact Ec|]. unfold I. rewrite Rc, Cc, Rb, Cb, Ra, Ca. repeat split; auto.
+      intros a b Ha Hb. rewrite Vc, Vb, Va, V by lia.
+      destruct (Nat.eqb_spec a i) as [Eai|NA]; [subst a|]; cbn [andb].
+      - destruct (Nat.ltb_spec i (S i)); [|lia]. destruct (Nat.ltb_spec i i); [lia|].
+        unfold dense.
+        destruct (Nat.eqb_spec b (i + 1)) as [->|].
+        { destruct (Nat.eqb_spec i (i + 1)); [lia|]. destruct (Nat.eqb_spec i (i + 1 + 1)); [lia|].
+          now rewrite Nat.eqb_refl. }
+        destruct (Nat.eqb_spec b i) as [Ebi|]; [subst b; now rewrite Nat.eqb_refl|].
+        destruct (Nat.eqb_spec i b); [lia|].
+        destruct (Nat.eqb_spec b (i - 1)) as [->|].
+        { destruct (Nat.eqb_spec i (i - 1 + 1)); [reflexivity|lia]. }
+        destruct (Nat.eqb_spec i (b + 1)); [lia|]. destruct (Nat.eqb_spec (i + 1) b); [lia|]. reflexivity.
+      - destruct (Nat.ltb_spec a (S i)); destruct (Nat.ltb_spec a i); try reflexivity; lia. }
+    rewrite E3; cbn [bind]. rewrite (rd_ok _ _ zero) by lia. cbn [bind].
+    destruct (mset_spec d3 (n - 1) (n - 2) (nth (n - 2) (tsub t) zero) W3) as (d4 & E4 & W4 & R4 & C4 & V4); try lia.
+    rewrite E4; cbn [bind]. rewrite (rd_ok _ _ zero) by lia. cbn [bind].
+    destruct (mset_spec d4 (n - 1) (n - 1) (nth (n - 1) (tmain t) zero) W4) as (d5 & E5 & W5 & R5 & C5 & V5); try lia.
+    exists d5; split; [exact E5|]. rewrite R5, C5, R4, C4. repeat split; auto.
+    intros i j Hi Hj. rewrite V5, V4, V3 by lia.
+    destruct (Nat.eqb_spec i (n - 1)) as [->|NI]; cbn [andb].
+    + destruct (Nat.ltb_spec (n - 1) (n - 1)); [lia|]. unfold dense.
+      destruct (Nat.eqb_spec j (n - 1)) as [->|]; [now rewrite Nat.eqb_refl|].
+      destruct (Nat.eqb_spec (n - 1) j); [lia|].
+      destruct (Nat.eqb_spec j (n - 2)) as [->|].
+      { destruct (Nat.eqb_spec (n - 1) (n - 2 + 1)); [reflexivity|lia]. }
+      destruct (Nat.eqb_spec (n - 1) (j + 1)); [lia|]. destruct (Nat.eqb_spec (n - 1 + 1) j); [lia|]. reflexivity.
+    + destruct (Nat.ltb_spec i (n - 1)); [reflexivity|lia].
+Qed.
+
+(* ---------- any history of writes refines pointwise updates of the dense twin ---------- *)
+Definition band_b (i j : nat) : bool := (i =? j) || (i =? j + 1) || (i + 1 =? j).
+Lemma band_b_spec i j : band_b i j = true <-> in_band i j.
+Proof.
+  unfold band_b, in_band. rewrite !orb_true_iff, !Nat.eqb_eq. tauto.
+Qed.
+
+(* one write as the caller sees it: a refused write leaves the matrix as it was *)
+Definition wstep (t : tridiag) (w : nat * nat * T) : tridiag :=
+  let '(i, j, x) := w in match tset t i j x with Ok t' => t' | Panic _ => t end.
+(* the same write on the textbook n x n matrix restricted to the band *)
+Definition dstep (n : nat) (d : nat -> nat -> T) (w : nat * nat * T) : nat -> nat -> T :=
+  let '(i, j, x) := w in
+  if (i <? n) && (j <? n) && band_b i j
+  then fun a b => if (a =? i) && (b =? j) then x else d a b
+  else d.
+
+Lemma wstep_spec t w : wfT t ->
+  wfT (wstep t w) /\ tn (wstep t w) = tn t /\
+  forall a b, a < tn t -> b < tn t -> dense (wstep t w) a b = dstep (tn t) (dense t) w a b.
+Proof.
+  intros W. destruct w as [[i j] x]. unfold wstep, dstep.
+  destruct (Nat.ltb_spec i (tn t)) as [Hi|Hi]; cbn [andb].
+  2:{ rewrite tset_refuses by lia. auto. }
+  destruct (Nat.ltb_spec j (tn t)) as [Hj|Hj]; cbn [andb].
+  2:{ rewrite tset_refuses by lia. auto. }
+  destruct (band_b i j) eqn:Eb.
+  - apply band_b_spec in Eb. destruct (tset_in_band t i j x W Hi Hj Eb) as (t' & E & W' & N' & V').
+    rewrite E. auto.
+  - rewrite tset_refuses; auto. right; right. intros Hb. apply band_b_spec in Hb. congruence.
+Qed.
+
+Lemma write_history_lemma (ws : list (nat * nat * T)) : forall t, wfT t ->
+  wfT (fold_left wstep ws t) /\ tn (fold_left wstep ws t) = tn t /\
+  forall a b, a < tn t -> b < tn t ->
+    dense (fold_left wstep ws t) a b = fold_left (dstep (tn t)) ws (dense t) a b.
+Proof.
+  induction ws as [|w ws IH]; intros t W; cbn [fold_left]; [auto|].
+  destruct (wstep_spec t w W) as (W1 & N1 & V1).
+  destruct (IH (wstep t w) W1) as (W2 & N2 & V2).
+  split; [exact W2|]. split; [congruence|].
+  intros a b Ha Hb. rewrite V2 by lia. rewrite N1.
+  (* the two folds start from functions that agree on [0,n) x [0,n) *)
+  assert (Ext : forall ws (d d' : nat -> nat -> T),
+            (forall a b, a < tn t -> b < tn t -> d a b = d' a b) ->
+            forall a b, a < tn t -> b < tn t ->
+              fold_left (dstep (tn t)) ws d a b = fold_left (dstep (tn t)) ws d' a b).
+  { clear. induction ws as [|w ws IH]; intros d d' H a b Ha Hb; cbn [fold_left]; [now apply H|].
+    apply IH; auto. intros a' b' Ha' Hb'. destruct w as [[i j] x]. unfold dstep.
+    destruct ((i <? tn t) && (j <? tn t) && band_b i j); [|now apply H].
+    destruct ((a' =? i) && (b' =? j)); [reflexivity|now apply H]. }
+  apply Ext; auto.
+Qed.
+
+Lemma tridiag_constructors_lemma (sub main sup : list T) (a b c : T) (n : nat) :
+  (1 <= length main -> length sub = length main - 1 -> length sup = length main - 1 ->
+     exists t, with_vecs sub main sup = Ok t /\ wfT t /\ tn t = length main /\
+               tsub t = sub /\ tmain t = main /\ tsup t = sup) /\
+  (1 <= length main -> (length sub <> length main - 1 \/ length sup <> length main - 1) ->
+     with_vecs sub main sup = Panic Guard) /\
+  (1 <= n -> exists t, with_elements a b c n = Ok t /\ wfT t /\ tn t = n /\
+     forall i j, i < n -> j < n -> dense t i j =
+       if i =? j then b else if i =? j + 1 then a else if i + 1 =? j then c else zero).
+Proof.
+  split; [|split].
+  - exact (with_vecs_spec sub main sup).
+  - exact (with_vecs_rejects sub main sup).
+  - exact (with_elements_spec a b c n).
+Qed.
+
+(* the views together, as pinned in Props/C05.v *)
+Lemma tridiag_views_lemma t : wfT t -> 1 <= tn t ->
+  (forall i j, i < tn t -> j < tn t -> in_band i j -> tindex t i j = Ok (dense t i j)) /\
+  (forall i j, tn t <= i \/ tn t <= j \/ ~ in_band i j -> tindex t i j = Panic Guard) /\
+  (forall i j, ~ in_band i j -> dense t i j = zero) /\
+  (exists m, tconvert t = Ok m /\ wfM m /\ rows m = tn t /\ cols m = tn t /\
+             forall i j, i < tn t -> j < tn t -> entry m i j = dense t i j) /\
+  (wfT (ttranspose t) /\ tn (ttranspose t) = tn t /\ forall i j, dense (ttranspose t) i j = dense t j i).
+Proof.
+  intros W Hn. split; [|split; [|split; [|split]]].
+  - intros i j. now apply tindex_in_band.
+  - intros i j. apply tindex_refuses.
+  - intros i j. apply dense_off_band.
+  - now apply tconvert_spec.
+  - now apply ttranspose_spec.
+Qed.
+
+Lemma tridiag_writes_lemma t i j x : wfT t ->
+  (i < tn t -> j < tn t -> in_band i j ->
+     exists t', tset t i j x = Ok t' /\ wfT t' /\ tn t' = tn t /\
+       forall a b, a < tn t -> b < tn t -> dense t' a b = if (a =? i) && (b =? j) then x else dense t a b) /\
+  (tn t <= i \/ tn t <= j \/ ~ in_band i j -> tset t i j x = Panic Guard).
+Proof. intros W. split; [now apply tset_in_band | apply tset_refuses]. Qed.
+
+End TriProofs.
+
+(* ====================== arithmetic and the product: ring laws needed ====================== *)
+Section TriRing.
+Context {A : Arith}.
+Variable RL : RingLaws A.
+Notation T := (T A).
+Notation tridiag := (tridiag A).
+Add Ring Aring : (rl_ring A RL).
+
+Lemma nth_map0 (f : T -> T) (l : list T) i : f zero = zero -> nth i (map f l) zero = f (nth i l zero).
+Proof. intros H. rewrite <- H at 1. apply map_nth. Qed.
+
+Lemma nth_zipw0 (f : T -> T -> T) (u v : list T) i : f zero zero = zero -> length u = length v ->
+  nth i (zipw f u v) zero = f (nth i u zero) (nth i v zero).
+Proof.
+  intros H L. unfold zipw.
+  change (nth i (map (fun p : T * T => f (fst p) (snd p)) (combine u v)) zero)
+    with (nth i (map (fun p : T * T => f (fst p) (snd p)) (combine u v)) zero).
+  rewrite <- H at 1.
+  change (f zero zero) with ((fun p : T * T => f (fst p) (snd p)) (zero, zero)).
+  rewrite map_nth. rewrite combine_nth by exact L. reflexivity.
+Qed.
+
+Lemma zipw_length (f : T -> T -> T) (u v : list T) : length u = length v -> length (zipw f u v) = length u.
+Proof. intros L. unfold zipw. rewrite map_length, combine_length. lia. Qed.
+
+(* an operation applied to the three diagonals, with f 0 = 0, is that operation on the dense twin *)
+Lemma dense_map3 (f : T -> T) (t : tridiag) i j : f zero = zero ->
+  dense (mkT (map f (tsub t)) (map f (tmain t)) (map f (tsup t)) (tn t)) i j = f (dense t i j).
+Proof.
+  intros H. unfold dense; cbn [tmain tsub tsup].
+  destruct (i =? j); [now apply nth_map0|].
+  destruct (i =? j + 1); [now apply nth_map0|].
+  destruct (i + 1 =? j); [now apply nth_map0|]. now rewrite H.
+Qed.
+
+Lemma wfT_map3 (f g h : T -> T) (t : tridiag) : wfT t ->
+  wfT (mkT (map f (tsub t)) (map g (tmain t)) (map h (tsup t)) (tn t)).
+Proof. intros (Hm & Hs & Hp). unfold wfT; cbn [tmain tsub tsup tn]. now rewrite !map_length. Qed.
+
+Lemma tneg_spec (t : tridiag) : wfT t ->
+  wfT (tneg t) /\ tn (tneg t) = tn t /\ forall i j, dense (tneg t) i j = (- dense t i j)%A.
+Proof.
+  intros W. split; [apply wfT_map3; exact W|]. split; [reflexivity|].
+  intros i j. unfold tneg, vneg. apply dense_map3. ring.
+Qed.
+
+Lemma tscale_spec (t : tridiag) (s : T) : wfT t ->
+  wfT (tscale t s) /\ tn (tscale t s) = tn t /\ forall i j, dense (tscale t s) i j = (dense t i j * s)%A.
+Proof.
+  intros W. split; [apply wfT_map3; exact W|]. split; [reflexivity|].
+  intros i j. unfold tscale, vscale. apply (dense_map3 (fun x => (x * s)%A)). ring.
+Qed.
+
+Lemma tscale_l_spec (s : T) (t : tridiag) : wfT t ->
+  wfT (tscale_l s t) /\ tn (tscale_l s t) = tn t /\ forall i j, dense (tscale_l s t) i j = (s * dense t i j)%A.
+Proof.
+  intros W. split; [apply wfT_map3; exact W|]. split; [reflexivity|].
+  intros i j. unfold tscale_l, vscale_l. apply (dense_map3 (fun x => (s * x)%A)). ring.
+Qed.
+
+Lemma tmul_assign_s_spec (t : tridiag) (s : T) : wfT t ->
+  wfT (tmul_assign_s t s) /\ tn (tmul_assign_s t s) = tn t /\
+  forall i j, dense (tmul_assign_s t s) i j = (dense t i j * s)%A.
+Proof. exact (tscale_spec t s). Qed.
+
+(* T += s, T -= s act on the stored elements: the three diagonals *)
+Lemma dense_map3_band (f : T -> T) (t : tridiag) i j : wfT t -> i < tn t -> j < tn t -> in_band i j ->
+  dense (mkT (map f (tsub t)) (map f (tmain t)) (map f (tsup t)) (tn t)) i j = f (dense t i j).
+Proof.
+  intros (Hm & Hs & Hp) Hi Hj Hb. unfold dense, in_band in *; cbn [tmain tsub tsup].
+  destruct (Nat.eqb_spec i j).
+  { rewrite (nth_indep _ zero (f zero)) by (rewrite map_length; lia). apply map_nth. }
+  destruct (Nat.eqb_spec i (j + 1)).
+  { rewrite (nth_indep _ zero (f zero)) by (rewrite map_length; lia). apply map_nth. }
+  destruct (Nat.eqb_spec (i + 1) j); [|lia].
+  rewrite (nth_indep _ zero (f zero)) by (rewrite map_length; lia). apply map_nth.
+Qed.
+
+Lemma tadd_assign_s_spec (t : tridiag) (s : T) : wfT t ->
+  wfT (tadd_assign_s t s) /\ tn (tadd_assign_s t s) = tn t /\
+  forall i j, i < tn t -> j < tn t -> in_band i j -> dense (tadd_assign_s t s) i j = (dense t i j + s)%A.
+Proof.
+  intros W. split; [apply wfT_map3; exact W|]. split; [reflexivity|].
+  intros i j Hi Hj Hb. unfold tadd_assign_s, vadd_scalar. now apply (dense_map3_band (fun x => (x + s)%A)).
+Qed.
+
+Lemma tsub_assign_s_spec (t : tridiag) (s : T) : wfT t ->
+  wfT (tsub_assign_s t s) /\ tn (tsub_assign_s t s) = tn t /\
+  forall i j, i < tn t -> j < tn t -> in_band i j -> dense (tsub_assign_s t s) i j = (dense t i j - s)%A.
+Proof.
+  intros W. split; [apply wfT_map3; exact W|]. split; [reflexivity|].
+  intros i j Hi Hj Hb. unfold tsub_assign_s, vsub_scalar. now apply (dense_map3_band (fun x => (x - s)%A)).
+Qed.
+
+Lemma dense_zip3 (f : T -> T -> T) (a b : tridiag) i j : f zero zero = zero ->
+  wfT a -> wfT b -> tn a = tn b ->
+  dense (mkT (zipw f (tsub a) (tsub b)) (zipw f (tmain a) (tmain b)) (zipw f (tsup a) (tsup b)) (tn a)) i j
+  = f (dense a i j) (dense b i j).
+Proof.
+  intros H (Hm & Hs & Hp) (Hm' & Hs' & Hp') E. unfold dense; cbn [tmain tsub tsup].
+  destruct (i =? j); [apply nth_zipw0; auto; lia|].
+  destruct (i =? j + 1); [apply nth_zipw0; auto; lia|].
+  destruct (i + 1 =? j); [apply nth_zipw0; auto; lia|]. now rewrite H.
+Qed.
+
+Lemma tadd_spec (a b : tridiag) : wfT a -> wfT b -> tn a = tn b ->
+  exists c, tadd a b = Ok c /\ wfT c /\ tn c = tn a /\
+            forall i j, dense c i j = (dense a i j + dense b i j)%A.
+Proof.
+  intros Wa Wb E. pose proof Wa as (Hm & Hs & Hp). pose proof Wb as (Hm' & Hs' & Hp').
+  unfold tadd, tsize, vadd. destruct (Nat.eqb_spec (tn a) (tn b)); [|lia]. cbn [negb].
+  replace (length (tsub a) =? length (tsub b)) with true by (symmetry; apply Nat.eqb_eq; lia).
+  replace (length (tmain a) =? length (tmain b)) with true by (symmetry; apply Nat.eqb_eq; lia).
+  replace (length (tsup a) =? length (tsup b)) with true by (symmetry; apply Nat.eqb_eq; lia).
+  cbn [bind]. eexists; split; [reflexivity|]. split; [|split; [reflexivity|]].
+  - unfold wfT; cbn [tmain tsub tsup tn]. rewrite !zipw_length by lia. lia.
+  - intros i j. apply (dense_zip3 add); auto. ring.
+Qed.
+
+Lemma tminus_spec (a b : tridiag) : wfT a -> wfT b -> tn a = tn b ->
+  exists c, tminus a b = Ok c /\ wfT c /\ tn c = tn a /\
+            forall i j, dense c i j = (dense a i j - dense b i j)%A.
+Proof.
+  intros Wa Wb E. pose proof Wa as (Hm & Hs & Hp). pose proof Wb as (Hm' & Hs' & Hp').
+  unfold tminus, tsize, vsub. destruct (Nat.eqb_spec (tn a) (tn b)); [|lia]. cbn [negb].
+  replace (length (tsub a) =? length (tsub b)) with true by (symmetry; apply Nat.eqb_eq; lia).
+  replace (length (tmain a) =? length (tmain b)) with true by (symmetry; apply Nat.eqb_eq; lia).
+  replace (length (tsup a) =? length (tsup b)) with true by (symmetry; apply Nat.eqb_eq; lia).
+  cbn [bind]. eexists; split; [reflexivity|]. split; [|split; [reflexivity|]].
+  - unfold wfT; cbn [tmain tsub tsup tn]. rewrite !zipw_length by lia. lia.
+  - intros i j. apply (dense_zip3 sub); auto. ring.
+Qed.
+
+Lemma tadd_rejects (a b : tridiag) : tn a <> tn b -> tadd a b = Panic Guard /\ tminus a b = Panic Guard.
+Proof.
+  intros NE. unfold tadd, tminus, tsize.
+  destruct (Nat.eqb_spec (tn a) (tn b)); [lia|]. split; reflexivity.
+Qed.
+
+(* ---------- sums with sparse support ---------- *)
+Lemma sum_n_zero n (f : nat -> T) : (forall k, k < n -> f k = zero) -> sum_n n f = zero.
+Proof.
+  induction n as [|n IH]; cbn; intros H; auto.
+  rewrite IH by (intros; apply H; lia). rewrite H by lia. ring.
+Qed.
+
+Lemma sum_n_single n (f : nat -> T) p : p < n -> (forall k, k < n -> k <> p -> f k = zero) -> sum_n n f = f p.
+Proof.
+  induction n as [|n IH]; intros Hp H; [lia|]. cbn.
+  destruct (Nat.eq_dec p n) as [->|NE].
+  - rewrite sum_n_zero by (intros; apply H; lia). ring.
+  - rewrite IH by (try lia; intros; apply H; lia). rewrite (H n) by lia. ring.
+Qed.
+
+Lemma sum_n_plus n (f g : nat -> T) : sum_n n (fun k => (f k + g k)%A) = (sum_n n f + sum_n n g)%A.
+Proof. induction n as [|n IH]; cbn; [ring|]. rewrite IH. ring. Qed.
+
+(* the three-term row of the dense twin applied to a vector *)
+Definition row3 (t : tridiag) (v : list T) (i : nat) : T :=
+  ((if 1 <=? i then nth (i - 1) (tsub t) zero * nth (i - 1) v zero else zero)
+   + nth i (tmain t) zero * nth i v zero
+   + (if i + 1 <? tn t then nth i (tsup t) zero * nth (i + 1) v zero else zero))%A.
+
+Lemma dense_row_sum (t : tridiag) (v : list T) i : i < tn t ->
+  sum_n (tn t) (fun j => (dense t i j * nth j v zero)%A) = row3 t v i.
+Proof.
+  intros Hi.
+  pose (fa := fun j => if j + 1 =? i then (nth j (tsub t) zero * nth j v zero)%A else @zero A).
+  pose (fb := fun j => if j =? i then (nth i (tmain t) zero * nth i v zero)%A else @zero A).
+  pose (fc := fun j => if j =? i + 1 then (nth i (tsup t) zero * nth j v zero)%A else @zero A).
+  rewrite (sum_n_ext _ _ (fun j => (fa j + fb j + fc j)%A)).
+  2:{ intros j Hj. unfold dense, fa, fb, fc.
+      destruct (Nat.eqb_spec i j) as [E|]; [subst j|].
+      { rewrite Nat.eqb_refl. destruct (Nat.eqb_spec (i + 1) i); [lia|].
+        destruct (Nat.eqb_spec i (i + 1)); [lia|]. ring. }
+      destruct (Nat.eqb_spec j i); [lia|].
+      destruct (Nat.eqb_spec i (j + 1)) as [E|]; [subst i|].
+      { rewrite Nat.eqb_refl. destruct (Nat.eqb_spec j (j + 1 + 1)); [lia|]. ring. }
+      destruct (Nat.eqb_spec (j + 1) i); [lia|].
+      destruct (Nat.eqb_spec (i + 1) j) as [E|]; [subst j|].
+      { rewrite Nat.eqb_refl. ring. }
+      destruct (Nat.eqb_spec j (i + 1)); [lia|]. ring. }
+  rewrite !sum_n_plus. unfold row3. f_equal; [f_equal|].
+  - destruct (Nat.leb_spec 1 i).
+    + rewrite (sum_n_single _ fa (i - 1)) by
+        (first [lia | intros k Hk NE; unfold fa; destruct (Nat.eqb_spec (k + 1) i); [lia|reflexivity]]).
+      unfold fa. destruct (Nat.eqb_spec (i - 1 + 1) i); [reflexivity|lia].
+    + apply sum_n_zero. intros k Hk. unfold fa. destruct (Nat.eqb_spec (k + 1) i); [lia|reflexivity].
+  - rewrite (sum_n_single _ fb i) by
+      (first [lia | intros k Hk NE; unfold fb; destruct (Nat.eqb_spec k i); [lia|reflexivity]]).
+    unfold fb. now rewrite Nat.eqb_refl.
+  - destruct (Nat.ltb_spec (i + 1) (tn t)).
+    + rewrite (sum_n_single _ fc (i + 1)) by
+        (first [lia | intros k Hk NE; unfold fc; destruct (Nat.eqb_spec k (i + 1)); [lia|reflexivity]]).
+      unfold fc. now rewrite Nat.eqb_refl.
+    + apply sum_n_zero. intros k Hk. unfold fc. destruct (Nat.eqb_spec k (i + 1)); [lia|reflexivity].
+Qed.
+
+(* ---------- &T * &v (with the n = 1 branch) ---------- *)
+Lemma tmul_row3 (t : tridiag) (v : list T) : wfT t -> 1 <= tn t -> length v = tn t ->
+  exists w, tmul t v = Ok w /\ length w = tn t /\ forall i, i < tn t -> nth i w zero = row3 t v i.
+Proof.
+  intros (Hm & Hs & Hp) Hn Hv. unfold tmul, tmul_gen, tsize.
+  rewrite Hv, Nat.eqb_refl. cbn [negb andb].
+  set (n := tn t) in *.
+  destruct (Nat.eqb_spec n 1) as [N1|N1].
+  - rewrite !(rd_ok _ _ zero) by lia. cbn [bind]. rewrite upd_ok by (rewrite repeat_length; lia).
+    eexists; split; [reflexivity|]. rewrite upd_list_length, repeat_length. split; [reflexivity|].
+    intros i Hi. assert (i = 0) as -> by lia.
+    rewrite nth_upd_list by (rewrite repeat_length; lia). cbn [Nat.eqb]. unfold row3. fold n.
+    cbn [Nat.leb]. destruct (Nat.ltb_spec (0 + 1) n); [lia|]. ring.
+  - rewrite !(rd_ok _ _ zero) by lia. cbn [bind]. rewrite upd_ok by (rewrite repeat_length; lia). cbn [bind].
+    unfold usub. destruct (Nat.leb_spec 1 n); [|lia]. cbn [bind].
+    pose (I := fun (i : nat) (w : list T) =>
+      length w = n /\ forall k, k < i -> nth k w zero = row3 t v k).
+    destruct (for_inv I 1 (n - 1) (fun i result =>
+                   let* sb := rd (tsub t) (i - 1) in
+                   let* vm := rd v (i - 1) in
+                   let* mi := rd (tmain t) i in
+                   let* vi := rd v i in
+                   let* sp := rd (tsup t) i in
+                   let* vp := rd v (i + 1) in
+                   upd result i (sb * vm + mi * vi + sp * vp)%A)
+                (upd_list (repeat zero n) 0
+                   (nth 0 (tmain t) zero * nth 0 v zero + nth 0 (tsup t) zero * nth 1 v zero)%A))
+      as (w & Ew & Lw & Vw); [lia| | |].
+    { unfold I. rewrite upd_list_length, repeat_length. split; [reflexivity|].
+      intros k Hk. assert (k = 0) as -> by lia.
+      rewrite nth_upd_list by (rewrite repeat_length; lia). cbn [Nat.eqb]. unfold row3. fold n.
+      cbn [Nat.leb]. destruct (Nat.ltb_spec (0 + 1) n); [|lia]. cbn [Nat.add]. ring. }
+    { intros i w (Hi1 & Hi2) (Lw & Vw).
+      rewrite !(rd_ok _ _ zero) by lia. cbn [bind]. rewrite upd_ok by lia.
+      eexists; split; [reflexivity|]. unfold I. rewrite upd_list_length. split; [exact Lw|].
+      intros k Hk. rewrite nth_upd_list by lia.
+      destruct (Nat.eqb_spec k i) as [E|NE]; [subst k|apply Vw; lia].
+      unfold row3. fold n. destruct (Nat.leb_spec 1 i); [|lia]. destruct (Nat.ltb_spec (i + 1) n); [|lia].
+      reflexivity. }
+    rewrite Ew. cbn [bind]. destruct (Nat.leb_spec 2 n); [|lia]. cbn [bind].
+    rewrite !(rd_ok _ _ zero) by lia. cbn [bind]. rewrite upd_ok by lia.
+    eexists; split; [reflexivity|]. rewrite upd_list_length. split; [exact Lw|].
+    intros i Hi. rewrite nth_upd_list by lia.
+    destruct (Nat.eqb_spec i (n - 1)) as [E|NE]; [subst i|apply Vw; lia].
+    unfold row3. fold n. destruct (Nat.leb_spec 1 (n - 1)); [|lia].
+    destruct (Nat.ltb_spec (n - 1 + 1) n); [lia|].
+    replace (n - 1 - 1) with (n - 2) by lia. ring.
+Qed.
+
+Lemma tmul_spec_lemma (t : tridiag) (v : list T) : wfT t -> 1 <= tn t -> length v = tn t ->
+  exists w, tmul t v = Ok w /\ length w = tn t /\
+    forall i, i < tn t -> nth i w zero = sum_n (tn t) (fun j => (dense t i j * nth j v zero)%A).
+Proof.
+  intros W Hn Hv. destruct (tmul_row3 t v W Hn Hv) as (w & E & L & V).
+  exists w; repeat split; auto. intros i Hi. rewrite V by exact Hi. symmetry. now apply dense_row_sum.
+Qed.
+
+Lemma tmul_rejects (t : tridiag) v : length v <> tn t -> tmul t v = Panic Guard.
+Proof.
+  intros NE. unfold tmul, tmul_gen, tsize. destruct (Nat.eqb_spec (tn t) (length v)); [lia|reflexivity].
+Qed.
+
+Lemma tridiag_arith_lemma (a b : tridiag) (s : T) : wfT a -> wfT b -> tn a = tn b ->
+  (wfT (tneg a) /\ tn (tneg a) = tn a /\ forall i j, dense (tneg a) i j = (- dense a i j)%A) /\
+  (exists c, tadd a b = Ok c /\ wfT c /\ tn c = tn a /\ forall i j, dense c i j = (dense a i j + dense b i j)%A) /\
+  (exists c, tminus a b = Ok c /\ wfT c /\ tn c = tn a /\ forall i j, dense c i j = (dense a i j - dense b i j)%A) /\
+  (wfT (tscale a s) /\ tn (tscale a s) = tn a /\ forall i j, dense (tscale a s) i j = (dense a i j * s)%A) /\
+  (wfT (tscale_l s a) /\ tn (tscale_l s a) = tn a /\ forall i j, dense (tscale_l s a) i j = (s * dense a i j)%A).
+Proof.
+  intros Wa Wb E. split; [|split; [|split; [|split]]].
+  - now apply tneg_spec.
+  - now apply tadd_spec.
+  - now apply tminus_spec.
+  - now apply tscale_spec.
+  - now apply tscale_l_spec.
+Qed.
+
+Lemma tridiag_scalar_assign_lemma (t : tridiag) (s : T) : wfT t ->
+  (wfT (tadd_assign_s t s) /\ tn (tadd_assign_s t s) = tn t /\
+   forall i j, i < tn t -> j < tn t -> in_band i j -> dense (tadd_assign_s t s) i j = (dense t i j + s)%A) /\
+  (wfT (tsub_assign_s t s) /\ tn (tsub_assign_s t s) = tn t /\
+   forall i j, i < tn t -> j < tn t -> in_band i j -> dense (tsub_assign_s t s) i j = (dense t i j - s)%A) /\
+  (wfT (tmul_assign_s t s) /\ tn (tmul_assign_s t s) = tn t /\
+   forall i j, dense (tmul_assign_s t s) i j = (dense t i j * s)%A).
+Proof.
+  intros W. split; [|split].
+  - now apply tadd_assign_s_spec.
+  - now apply tsub_assign_s_spec.
+  - now apply tmul_assign_s_spec.
+Qed.
+
+End TriRing.
